@@ -484,3 +484,40 @@ Proof.
       by (vm_compute; reflexivity).
     rewrite E. vm_compute. discriminate.
 Qed.
+
+(* ---------- arbitrary spans ---------- *)
+(* For histories with writes of ANY span the cover of a range is canonical exactly under the condition that
+   makes the tree "fully pre-aggregated" for that range: every aligned bucket below the root that fits in the
+   range is a present node.  (For writes shorter than 10 slots a fully written range satisfies it: [pres].) *)
+Theorem canonical_general K ws qa qb : Forall (valid_write K) ws -> qa < qb ->
+  match s_root (fst (run_writes ws)) with
+  | Some (lvl, n) =>
+      (forall k, abucket lvl (sn_time n) k -> fits qa qb k -> In k (pkeys lvl n)) ->
+      map gc_key (s_get qa qb (fst (run_writes ws))) = s_canon lvl (sn_time n) qa qb
+  | None => True
+  end.
+Proof.
+  intros Hv Hq. pose proof (run_writes_ok K ws Hv) as Hok. unfold seg_ok, s_get in *.
+  destruct (s_root (fst (run_writes ws))) as [[lvl n]|]; [|exact I].
+  destruct Hok as (_ & Hwf & _). intros HP. apply get_canon; assumption.
+Qed.
+
+(* A long write does NOT leave the tree pre-aggregated below the buckets it contains: a bucket contained in a
+   write gets a profile and no children, so a later range inside it finds nothing at all.  The smallest
+   witness is a fully written series made of ONE write of 100 slots = exactly one aligned 1000 s bucket:
+   every slot of the root bucket was written, the sub-range [610,620) is an aligned 100 s bucket, its
+   canonical decomposition is that bucket, and the cover is empty (the answer is 0 of the 20 units written). *)
+Definition canon_cex1 : list write := [ mk_write 6321559600 6321559700 100 2 ].
+Lemma canonical_refuted_one_long_write :
+  Forall (valid_write 63) canon_cex1 /\
+  option_map (fun r => (fst r, sn_time (snd r), sn_present (snd r))) (s_root (fst (run_writes canon_cex1))) = Some (2%nat, 6321559600, true) /\
+  (forall x, 6321559600 <= x < 6321559700 -> exists w, In w canon_cex1 /\ w_a w <= x < w_b w) /\
+  s_get 6321559610 6321559620 (fst (run_writes canon_cex1)) = [] /\
+  s_canon 2 6321559600 6321559610 6321559620 = [(1%nat, 6321559610)] /\
+  WR canon_cex1 6321559610 6321559620 = 20.
+Proof.
+  split; [repeat constructor; cbn; unfold pow10; cbn; lia|].
+  split; [vm_compute; reflexivity|].
+  split; [intros x Hx; exists (mk_write 6321559600 6321559700 100 2); split; [left; reflexivity|cbn; lia]|].
+  split; [vm_compute; reflexivity|]. split; vm_compute; reflexivity.
+Qed.
